@@ -23,16 +23,18 @@ import (
 
 // Case is one session establishment.
 type Case struct {
-	Adv10       bool          `json:"adv10"`
-	Adv11       bool          `json:"adv11"`
-	Preferred   string        `json:"preferred"`
-	Hello       sim.HelloSpec `json:"hello"`
-	NoHello     bool          `json:"no_hello"` // garbage + EOM instead of a hello
-	Plan        []int         `json:"plan"`
-	Echo        bool          `json:"echo"`
-	ReadSize    int           `json:"read_size"`
-	ReadDelayNS int64         `json:"read_delay_ns"`
-	Cell        int           `json:"cell"`
+	Adv10     bool          `json:"adv10"`
+	Adv11     bool          `json:"adv11"`
+	Preferred string        `json:"preferred"`
+	Hello     sim.HelloSpec `json:"hello"`
+	NoHello   bool          `json:"no_hello"` // something that is not a hello, + EOM
+	// NoHelloKind: 0 plain garbage; 1 another message that quotes capability elements
+	NoHelloKind int   `json:"no_hello_kind,omitempty"`
+	Plan        []int `json:"plan"`
+	Echo        bool  `json:"echo"`
+	ReadSize    int   `json:"read_size"`
+	ReadDelayNS int64 `json:"read_delay_ns"`
+	Cell        int   `json:"cell"`
 }
 
 func genCap(t *rapid.T) string {
@@ -69,6 +71,7 @@ func genCell(t *rapid.T, cell int) Case {
 
 	if rapid.IntRange(0, 11).Draw(t, "noHello") == 0 {
 		c.NoHello = true
+		c.NoHelloKind = rapid.IntRange(0, 1).Draw(t, "noHelloKind")
 
 		return c
 	}
@@ -76,8 +79,13 @@ func genCell(t *rapid.T, cell int) Case {
 	var caps []string
 
 	n := rapid.IntRange(0, 15).Draw(t, "nExtra")
-	if rapid.Bool().Draw(t, "fewExtra") {
+
+	switch rapid.IntRange(0, 7).Draw(t, "fewExtra") {
+	case 0, 1, 2, 3:
 		n = rapid.IntRange(0, 3).Draw(t, "nExtraFew")
+	case 4:
+		// the long capability lists of real devices
+		n = rapid.IntRange(30, 70).Draw(t, "nExtraMany")
 	}
 
 	for i := 0; i < n; i++ {
@@ -107,7 +115,7 @@ func genCell(t *rapid.T, cell int) Case {
 	}
 
 	if c.Hello.Prefix == "nc" && rapid.Bool().Draw(t, "randPrefix") {
-		c.Hello.Prefix = rapid.StringMatching(`[a-z]{1,4}`).Draw(t, "prefixRand")
+		c.Hello.Prefix = rapid.StringMatching(`[a-z][a-z0-9_]{0,4}`).Draw(t, "prefixRand")
 	}
 
 	if rapid.IntRange(0, 5).Draw(t, "hasSID") != 0 {
@@ -195,6 +203,11 @@ func run(c Case) ev.Verdict {
 	srv := &sim.NCServer{Echo: c.Echo, Version: wantVersion}
 	if c.NoHello {
 		srv.Hello = "SSH-2.0 garbage that is not a hello\n" + sim.EOM
+
+		if c.NoHelloKind == 1 {
+			srv.Hello = fmt.Sprintf(`<rpc-reply xmlns="%s" message-id="1"><data><capabilities><capability>%s</capability><capability>%s</capability></capabilities><session-id>4</session-id></data></rpc-reply>`,
+				sim.BaseNS, sim.Cap10, sim.Cap11) + sim.EOM
+		}
 	} else {
 		srv.Hello = c.Hello.Render()
 	}
